@@ -54,7 +54,7 @@ class P(MetProp):
         recs = m.records(rng.randint(5, 14), start - rng_ns, (end - start) + rng_ns, ls, lines=("x",), numeric="v", values=[1, 2, 3, 5])
         sel = sel_all(m)
         drop = [m.g.st_dropkeep("drop", ["msg", "v"], [])]
-        kind = rng.choice(["count", "count", "sumby", "sumwithout", "nestedwithout", "unwrapmax", "emptyjoin"])
+        kind = rng.choice(["count", "count", "sumby", "sumwithout", "nestedwithout", "unwrapmax", "emptyjoin", "nestedby", "nestedby"])
         inner = m.mrange("count_over_time", sel, drop, rng_ns)
         rels = []
         if kind == "count":
@@ -68,6 +68,16 @@ class P(MetProp):
             g0 = rng.choice([grouping(["nosuch"]), grouping([]), grouping(names + ["job"], True)])
             agg = m.mvec(rng.choice(["sum", "count", "max"]), inner, None, g0)
             e = rng.choice([m.mbin("or", agg, m.mvector(0)), m.mbin("or", m.mvector(0), agg), m.mbin("+", agg, m.mvector(1)), m.mbin("unless", agg, m.mvector(1))])
+        elif kind == "nestedby":
+            # an outer `by` naming a label the inner clause removed: the label stays removed, equal (empty) label sets stay ONE series
+            l1 = rng.sample(names, rng.randint(0, max(0, len(names) - 1)))
+            left = [x for x in names if x not in l1] or names
+            l2 = rng.sample(left, rng.randint(1, len(left))) + (rng.sample(l1, 1) if l1 and rng.random() < 0.5 else [])
+            if rng.random() < 0.5:
+                inner1 = m.mvec(rng.choice(["sum", "max"]), inner, None, grouping(l1))
+            else:
+                inner1 = m.mrange(rng.choice(["max_over_time", "min_over_time"]), sel, [], rng_ns, 0, ("v", "", []), None, grouping(l1))
+            e = m.mvec(rng.choice(["sum", "count", "max"]), inner1, None, grouping(l2))
         elif kind == "sumwithout":
             L = rng.sample(names + ["nosuch"], rng.randint(0, min(3, len(names))))
             e = m.mvec("sum", inner, None, grouping(L, True))
